@@ -525,6 +525,89 @@ func c16RunSyncOnce(lens []int, pongAt, pingAt int) (obs, pobs, oracle string, o
 	return "S=" + string(pat), fmt.Sprintf("P=%d/%d", kaHeld, kaSeen), oracle, overhead
 }
 
+// ---- X: one sender uses the allowance up, then one Send that is split into pieces
+
+func c16RunSplit(linelen int, lens []int, textlen int) (obs, oracle string) {
+	s := c16Start(false)
+	defer s.stop()
+	if len(lens) != 5 {
+		return "X=?", ""
+	}
+	s.peer.Write([]byte(fmt.Sprintf(":srv 005 me LINELEN=%d NICKLEN=9 :are supported by this server\r\n", linelen)))
+	deadline := time.Now().Add(5 * time.Second)
+	for s.c.MaxEventLength() > linelen && time.Now().Before(deadline) {
+		time.Sleep(time.Millisecond)
+	}
+	max := s.c.MaxEventLength()
+	if max > linelen || max < 97 {
+		return fmt.Sprintf("X=?max%d", max), ""
+	}
+	t0, ok := s.idleUntil(time.Duration(c16Cost(int64(lens[0]))))
+	if !ok {
+		return "X=?disconnected", ""
+	}
+	var pat []byte
+	var sum time.Duration
+	for i, n := range lens {
+		e := &girc.Event{Command: girc.PRIVMSG, Params: []string{"#x0", c16Text(i, n)}}
+		if e.Len() != n || n >= max {
+			return "?bad-len", ""
+		}
+		cost := time.Duration(c16Cost(int64(n)))
+		t := time.Now()
+		s.c.Send(e)
+		if time.Since(t) >= cost {
+			pat = append(pat, 'D')
+		} else {
+			pat = append(pat, 'U')
+		}
+		sum += cost
+		want := i + 1
+		if !s.wait(func(a []c16Arrival) bool { return c16Count(a, "PRIVMSG #x0 ") >= want }, 15*time.Second) {
+			return "X=?lost", fmt.Sprintf("line-lost: event %d never reached the peer", i)
+		}
+	}
+	// the long one: text without spaces, so the pieces concatenate back to it
+	text := "L" + strings.Repeat("y", textlen-1)
+	e := &girc.Event{Command: girc.PRIVMSG, Params: []string{"#x0", text}}
+	ts := time.Now()
+	s.c.Send(e)
+	dur := time.Since(ts)
+	time.Sleep(100 * time.Millisecond)
+	var pieces []c16Arrival
+	for _, a := range s.snapshot() {
+		if strings.HasPrefix(a.line, "PRIVMSG #x0 ") && !strings.HasPrefix(a.line, "PRIVMSG #x0 m") {
+			pieces = append(pieces, a)
+		}
+	}
+	if len(pieces) < 2 {
+		return fmt.Sprintf("X=?pieces%d", len(pieces)), ""
+	}
+	got := ""
+	var acc time.Duration
+	for i, p := range pieces {
+		got += strings.TrimPrefix(strings.TrimPrefix(p.line, "PRIVMSG #x0 "), ":")
+		cost := time.Duration(c16Cost(int64(len(p.line))))
+		acc += cost
+		sum += cost
+		// every piece is an event of its own on the line budget: n lines may be on the wire
+		// t after the last write before the burst only if their costs fit in 8 s + t (a piece
+		// that is not rated, or not held, arrives with its predecessor and breaks it)
+		if allowed := 8*time.Second + p.at.Sub(t0); sum > allowed && oracle == "" {
+			oracle = fmt.Sprintf("rate-exceeded: piece %d of %d of a split PRIVMSG was on the wire %.2fs after the last write before the burst with %.2fs of cost written (allowance 8s + elapsed = %.2fs)",
+				i+1, len(pieces), p.at.Sub(t0).Seconds(), sum.Seconds(), allowed.Seconds())
+		}
+	}
+	if got != text && oracle == "" {
+		oracle = "reordered: the pieces of the split PRIVMSG do not concatenate to the text sent"
+	}
+	d := "U"
+	if dur >= acc {
+		d = "D"
+	}
+	return "X=" + string(pat) + "/" + d, oracle
+}
+
 // ---- T: g senders in tight loops
 
 func c16RunTight(g int, lens []int) (obs, oracle string) {
@@ -740,6 +823,17 @@ func c16RunWire(c Case) Result {
 				obs[i], orc[i] = c16RunFlood(nums[0])
 				sigs[i] = "F"
 			}(i)
+		case "X":
+			if len(nums) != 7 {
+				obs[i] = "?scenario"
+				continue
+			}
+			wg.Add(1)
+			go func(i int) {
+				defer wg.Done()
+				obs[i], orc[i] = c16RunSplit(nums[0], nums[1:6], nums[6])
+				sigs[i] = "X"
+			}(i)
 		default:
 			obs[i] = "?scenario"
 		}
@@ -830,8 +924,21 @@ func c16GenWire(r *rand.Rand) Case {
 	for i := range t3 {
 		t3[i] = 16 + r.Intn(40)
 	}
+	// X: LINELEN 196..230 (MaxEventLength 100..134 with NICKLEN=9), four events of 60..95 bytes
+	// whose costs add up to 7.6..8.0 s, a text of 2.2..3 pieces
+	linelen := 196 + r.Intn(35)
+	xl := []int{16 + r.Intn(15), 0, 0, 0, 0}
+	for {
+		total := 362 + r.Intn(37)
+		xl[1], xl[2], xl[3] = 85+r.Intn(11), 85+r.Intn(11), 85+r.Intn(11)
+		xl[4] = total - xl[1] - xl[2] - xl[3]
+		if xl[4] >= 60 && xl[4] <= 95 {
+			break
+		}
+	}
+	textlen := (linelen - 96 - 12) * (22 + r.Intn(8)) / 10
 	c := Case{c16Join("S", sl), c16Join("P", []int{pong, ping}), c16Join("T", append([]int{1}, t1...)),
-		c16Join("T", append([]int{3}, t3...)), "F 50"}
+		c16Join("T", append([]int{3}, t3...)), "F 50", c16Join("X", append(append([]int{linelen}, xl...), textlen))}
 	return append(c, c16Checksum(c))
 }
 
